@@ -1,5 +1,6 @@
 """Helpers around the real uwg package (imported from the working tree under test)."""
 import hashlib
+import logging
 import os
 import struct
 import types
@@ -116,6 +117,8 @@ def package_globals_digest(u=None):
                     acc['%s.%s' % (name, k)] = {a: b for a, b in vars(v).items()
                                                 if not a.startswith('__') and not callable(b)
                                                 and not isinstance(b, (property, staticmethod, classmethod))}
-            elif not callable(v) and not isinstance(v, types.ModuleType):
+            elif not callable(v) and not isinstance(v, types.ModuleType) and not isinstance(v, logging.Logger):
+                # (logger objects carry the logging manager's level caches, which change whenever a record is
+                #  emitted: they are configuration of the logging module, not data of the package)
                 acc['%s.%s' % (name, k)] = v
     return fingerprint(acc), len(acc)
